@@ -1,7 +1,7 @@
 //! C05, trace part: what the VM holds before every instruction of a render, per activation of
 //! `eval_impl` (hook `__verif::set_shape_observer`, cargo feature `hooks`).  JSON lines in / out.
 //!
-//! Request : {"templates": {name: source}, "main": name, "ctx": json}
+//! Request : {"templates": {name: source}, "main": name, "ctx": json, "c05_callables": bool (see c05_common/callables.rs)}
 //! Response: {"hook": false}                                   the tree under test has no shape observer
 //!           {"hook": true, "render": {"ok": s} | {"err": kind}, "truncated": bool,
 //!            "streams": [[instruction json ..] ..],            every instruction stream that was executed, dumped from
@@ -31,6 +31,9 @@ use minijinja::machinery::Instructions;
 use minijinja::value::Value;
 use minijinja::Environment;
 use serde_json::{json, Value as J};
+
+#[path = "c05_common/callables.rs"]
+mod c05_callables;
 
 type Observer = Box<dyn for<'a, 'b> FnMut(&'a Instructions<'b>, usize, u32, usize, usize, usize, usize)>;
 
@@ -86,6 +89,9 @@ fn dump(ins: &Instructions<'_>) -> Vec<J> {
 fn run(req: &J) -> J {
     let mut env = Environment::new();
     minijinja_contrib::add_to_environment(&mut env);
+    if req.get("c05_callables").and_then(|x| x.as_bool()).unwrap_or(false) {
+        c05_callables::install(&mut env);
+    }
     let empty = serde_json::Map::new();
     let templates = req.get("templates").and_then(|x| x.as_object()).unwrap_or(&empty);
     for (name, src) in templates {
